@@ -19,7 +19,7 @@ CLAIMS = {
          "Tokens are issued through the repository's own EnrichContext + GeneratePAAToken path from a generated (TCP source, X-Forwarded-For) and presented from a related one; same address => channel, different address => access-denied and no backend connection, verification off => ignored.",
          "4 C04"),
  "C05": ("property-based testing of the real binary's gateway endpoint with a fake authentication backend whose verdict log is the ground truth (rapid)",
-         "For every startable subset of mechanisms a real instance is driven with generated Authorization headers (absent, bare or truncated keywords, wrong case, disabled schemes, several header lines, Basic right/wrong/undecodable, NTLM exchanges in and out of order and across connections). Reaching the tunnel handler (101 / legacy 200+seed) must be justified by a confirming verdict in the backend's log for exactly these credentials, correct credentials of an enabled scheme must reach it, a request without header gets 401 with one challenge per enabled scheme, and after a confirmed login as user k only 127.0.0.k is reachable. Kerberos positive path and PAM are out of reach here (no KDC, no PAM headers).",
+         "For every startable subset of mechanisms a real instance is driven with generated Authorization headers (absent, bare or truncated keywords, wrong case, disabled schemes, several header lines, Basic right/wrong/undecodable, NTLM exchanges in and out of order and across connections). Reaching the tunnel handler (101 / legacy 200+seed) must be justified by a confirming verdict in the backend's log for exactly these credentials, correct credentials of an enabled scheme must reach it, a request without header gets 401 with one challenge per enabled scheme, and after a confirmed login as user k only 127.0.0.k is reachable. Kerberos: there is no KDC, the harness issues the service ticket itself under the gateway's keytab key (valid) or a foreign key (must be refused). PAM is out of reach here (no PAM headers): its verdicts are the fake service's.",
          "4 C05"),
  "C06": ("property-based testing: generated stream pairs, packetisations and schedules vs byte-exact stream equality + independent packet decoder (rapid)",
          "Two position-dependent byte streams (up to 256 KiB quick / 2 MiB thorough), a split of the client stream into DATA packets (boundary sizes, length fields shorter/longer than carried), a split of the host stream into writes and an interleaving are generated; the host must receive exactly the declared payloads and the client exactly the host stream, every DATA packet decoding strictly. In-process and real binary, both transports.",
